@@ -16,8 +16,8 @@ import (
 	"strings"
 	"sync"
 	"sync/atomic"
-	"time"
 	"testing"
+	"time"
 
 	"pgregory.net/rapid"
 )
